@@ -37,12 +37,24 @@ func TestVerifC13_LoadWhileSearching(t *testing.T) {
 			idx++
 			return true
 		})
+		// the number of matching lines varies from chunk to chunk (0..30 of 100) and
+		// so does their relevance, so that per-chunk result lists of very different
+		// sizes and ranks meet in one partition
+		density := make([]int, total/chunkSize+1)
+		for c := range density {
+			density[c] = rapid.SampledFrom([]int{0, 1, 2, 3, 5, 9, 14, 30}).Draw(t, "density")
+		}
 		lineOf := func(i int) string {
-			switch i % 7 {
-			case 0:
-				return fmt.Sprintf("ab-%d", i)
-			case 1:
-				return fmt.Sprintf("x b %d", i)
+			if i%chunkSize < density[i/chunkSize] {
+				switch (i / 3) % 4 {
+				case 0:
+					return fmt.Sprintf("ab-%d", i)
+				case 1:
+					return fmt.Sprintf("xx a-b %d", i)
+				case 2:
+					return fmt.Sprintf("x b %d", i)
+				}
+				return fmt.Sprintf("zzazzzzbzz long tail %d", i)
 			}
 			return fmt.Sprintf("zzz%d", i)
 		}
